@@ -152,8 +152,18 @@ func (ssc *defaultStatefulSetControl) ListRevisions(set *apps.StatefulSet) ([]*k
 		return nil, err
 	}
 	res := []*kubeapps.ControllerRevision{}
+	// a revision can match both selectors (an adopted revision keeps the upgrade marker): list it once
+	seen := map[string]bool{}
 	for _, item := range append(revisions.Items, revisinsToUpgrade.Items...) {
 		local := item
+		// revisions controlled by another owner are not ours to count, adopt or delete
+		if owner := metav1.GetControllerOfNoCopy(&local); owner != nil && owner.UID != set.UID {
+			continue
+		}
+		if seen[local.Name] {
+			continue
+		}
+		seen[local.Name] = true
 		res = append(res, &local)
 	}
 	return res, nil
